@@ -81,6 +81,8 @@ type Runner struct {
 	nrecv          int // responses/faults delivered on the current stream
 	wantTx         int // messages expected on the current stream so far (sent + failed)
 	dead           bool
+	closed         bool // Close was the last connection-level call
+	lastSent       []any
 	Steps          int
 	GateMissing    int
 	SettleTimeouts int
@@ -285,6 +287,9 @@ func (rn *Runner) state() map[string]any {
 		for _, m := range rn.strm.Sent[:n] {
 			sent = append(sent, absMsg(m))
 		}
+		rn.lastSent = sent
+	} else if rn.closed {
+		sent = rn.lastSent // the stream of the closed connection is gone: what it carried stays what it carried
 	}
 	st["pend"], st["pendElec"], st["pendParams"], st["results"] = pend, pe, pp, res
 	st["sendErrs"], st["recvErrs"], st["sent"] = len(cs.SendErrs), len(cs.ReadErrs), sent
@@ -404,6 +409,7 @@ func (rn *Runner) Step(in Input) error {
 	switch in.A {
 	case "new":
 		rn.dead = false
+		rn.closed, rn.lastSent = false, nil
 		client.VerifSetGate(func(site string) {
 			if site == "s.exit1" {
 				rn.sndExits.Add(1)
@@ -434,6 +440,7 @@ func (rn *Runner) Step(in Input) error {
 		c.UseStub(rn.stub)
 		rn.Sink.Emit(Event{"ev": "cnew", "cfg": map[string]any{"fib": in.Fib && in.Params, "elected": in.Elected && in.Params, "elec": elecOr0(in), "params": in.Params}})
 	case "connect":
+		rn.closed = false
 		err := rn.c.Connect(context.Background())
 		rn.strm = rn.stub.Last()
 		rn.strm.CloseEOF = true
@@ -446,6 +453,11 @@ func (rn *Runner) Step(in Input) error {
 		m := concMsg(in.M)
 		if !timed(func() { rn.c.Q(m) }) {
 			rn.hang("q")
+			return nil
+		}
+		if rn.closed {
+			// after Close: registered (the client is still in sending mode) or queued, never sent
+			rn.Sink.Emit(Event{"ev": "cq", "m": in.M, "st": rn.state()})
 			return nil
 		}
 		if rn.isSending {
@@ -802,6 +814,7 @@ func (rn *Runner) Step(in Input) error {
 		}
 		rn.Sink.Emit(Event{"ev": "c" + in.A, "done": done, "goroutines": left, "st": rn.state()})
 		rn.isSending, rn.wantTx, rn.queued, rn.snd = false, 0, 0, "dead"
+		rn.closed = in.A == "close"
 		if in.A == "close" {
 			rn.strm = nil
 		} else {
@@ -1025,5 +1038,9 @@ func Random(r *rand.Rand, n int) []Input {
 		}
 	}
 	ins = append(ins, Input{A: "await"}, Input{A: "close"})
+	// the application goes on queueing after it has closed the client: every call still returns (nothing is sent any more)
+	for i := r.Intn(9); i > 0; i-- {
+		ins = append(ins, Input{A: "q", M: mk()})
+	}
 	return ins
 }
